@@ -84,10 +84,10 @@ def export_format(subtree, **params):
     """
     if subtree.data['edge'] == None:
         subtree.data['edge'] = '--'
+    if subtree.data['morph'] == None:
+        subtree.data['morph'] = "--"
     label = trees.get_label(subtree, **params)
     if not 'export_four' in params:
-        if subtree.data['morph'] == None:
-            subtree.data['morph'] = "--"
         return u"%s%s%s\t%s%s%s\t%d\n" \
             % (subtree.data['word'],
                export_tabs(len(subtree.data['word'])),
@@ -97,6 +97,8 @@ def export_format(subtree, **params):
                subtree.data['edge'],
                subtree.parent.data['num'])
     else:
+        if subtree.data['lemma'] == None:
+            subtree.data['lemma'] = trees.DEFAULT_LEMMA
         return u"%s%s%s%s%s\t%s%s%s\t%d\n" \
             % (subtree.data['word'],
                export_tabs(len(subtree.data['word'])),
